@@ -20,8 +20,8 @@ REPO = "/repo"
 PY = "/venv/bin/python"
 
 
-def sh(cmd, cwd=None, timeout=3600):
-    p = subprocess.run(cmd, shell=True, cwd=cwd, capture_output=True, text=True, timeout=timeout)
+def sh(cmd, cwd=None, timeout=3600, env=None):
+    p = subprocess.run(cmd, shell=True, cwd=cwd, capture_output=True, text=True, timeout=timeout, env=env)
     return p.returncode, p.stdout + p.stderr
 
 
@@ -68,8 +68,15 @@ def main():
                 sh("git -C %s worktree remove --force %s" % (REPO, wt))
         else:
             verdict["confirmed"] = None
-        # run our checks against it
-        rc, out = sh("git apply %s" % patch, cwd=REPO)
+        # run our checks against it: in a scratch worktree (GWCS_REPO points the harness at it), so that several properties can be
+        # processed at once; C19's model is regenerated from the source and built, so that one goes through /repo itself
+        tree = REPO
+        if "C19" not in checks and prop != "C19":
+            tree = "/tmp/seedrun-%s-%s" % (prop, m)
+            sh("git -C %s worktree remove --force %s" % (REPO, tree))
+            sh("git -C %s worktree add -q %s HEAD" % (REPO, tree))
+        envc = dict(os.environ, GWCS_REPO=tree)
+        rc, out = sh("git apply %s" % patch, cwd=tree)
         detected = {}
         try:
             if rc != 0:
@@ -79,7 +86,7 @@ def main():
                     for tier in ("quick", "thorough"):
                         # --no-build: the Lean side is unchanged by a seeded change, and no evidence may be written from a mutated tree
                         # (C19's model is regenerated from the source by the translator: its run includes the build)
-                        rcc, oc = sh("%s harness/check.py %s --tier %s %s" % (PY, c, tier, "--no-evidence" if c == "C19" else "--no-build"), cwd=VERIF)
+                        rcc, oc = sh("%s harness/check.py %s --tier %s %s" % (PY, c, tier, "--no-evidence" if c == "C19" else "--no-build"), cwd=VERIF, env=envc)
                         viol = [l for l in oc.splitlines() if l.startswith("VIOLATION")]
                         detected["%s/%s" % (c, tier)] = {"rc": rcc, "violation": viol[:1], "tail": oc.strip().splitlines()[-3:]}
                         if rcc == 1 and viol:
@@ -87,16 +94,19 @@ def main():
                 if not any(v["rc"] == 1 and v["violation"] for v in detected.values()):
                     # missed by the named checks: which other properties' quick checks report it? (run in parallel)
                     import concurrent.futures
-                    others = ["C%02d" % i for i in range(1, 21) if "C%02d" % i not in checks]
+                    others = ["C%02d" % i for i in range(1, 21) if "C%02d" % i not in checks and (tree == REPO or i != 19)]
                     with concurrent.futures.ThreadPoolExecutor(max_workers=8) as ex:
-                        futs = {c: ex.submit(sh, "%s harness/check.py %s --tier quick --no-build" % (PY, c), VERIF) for c in others}
+                        futs = {c: ex.submit(sh, "%s harness/check.py %s --tier quick --no-build" % (PY, c), VERIF, 3600, envc) for c in others}
                     for c, fu in futs.items():
                         rcc, oc = fu.result()
                         viol = [l for l in oc.splitlines() if l.startswith("VIOLATION")]
                         if rcc == 1 and viol:
                             detected["%s/quick" % c] = {"rc": rcc, "violation": viol[:1], "tail": oc.strip().splitlines()[-3:], "cross": True}
         finally:
-            sh("git checkout -- .", cwd=REPO)
+            if tree == REPO:
+                sh("git checkout -- .", cwd=REPO)
+            else:
+                sh("git -C %s worktree remove --force %s" % (REPO, tree))
         verdict["detected"] = any(v["rc"] == 1 and v["violation"] for v in detected.values())
         verdict["checks"] = detected
         print(json.dumps(verdict, indent=1)[:3000])
